@@ -310,6 +310,20 @@ int reader_init_block_reader(struct reftable_reader *r, struct block_reader *br,
 		}
 	}
 
+	if (block_typ == BLOCK_TYPE_LOG) {
+		/* block_size is the inflated size. The zlib stream of
+		 * incompressible data is slightly longer than its input,
+		 * so it may extend beyond what was read above. */
+		int32_t need = block_size + block_size / 1000 + 64;
+		if (block.len < need && next_off + block.len < r->size) {
+			reftable_block_done(&block);
+			err = reader_get_block(r, &block, next_off, need);
+			if (err < 0) {
+				return err;
+			}
+		}
+	}
+
 	return block_reader_init(br, &block, header_off, r->block_size,
 				 hash_size(r->hash_id));
 }
@@ -577,6 +591,7 @@ int reader_seek(struct reftable_reader *r, struct reftable_iterator *it,
 		struct reftable_record *rec)
 {
 	uint8_t typ = reftable_record_type(rec);
+	int err = 0;
 
 	struct reftable_reader_offsets *offs = reader_offsets_for(r, typ);
 	if (!offs->is_present) {
@@ -584,7 +599,15 @@ int reader_seek(struct reftable_reader *r, struct reftable_iterator *it,
 		return 0;
 	}
 
-	return reader_seek_internal(r, it, rec);
+	err = reader_seek_internal(r, it, rec);
+	if (err > 0) {
+		/* The key sorts after everything in the section. The
+		 * iterator was not set up; callers expect an (empty)
+		 * iterator whenever the seek did not fail. */
+		iterator_set_empty(it);
+		err = 0;
+	}
+	return err;
 }
 
 int reftable_reader_seek_ref(struct reftable_reader *r,
@@ -645,6 +668,10 @@ void reftable_reader_free(struct reftable_reader *r)
 	reftable_free(r);
 }
 
+static int reftable_reader_refs_for_unindexed(struct reftable_reader *r,
+					      struct reftable_iterator *it,
+					      uint8_t *oid);
+
 static int reftable_reader_refs_for_indexed(struct reftable_reader *r,
 					    struct reftable_iterator *it,
 					    uint8_t *oid)
@@ -663,8 +690,14 @@ static int reftable_reader_refs_for_indexed(struct reftable_reader *r,
 	/* Look through the reverse index. */
 	reftable_record_from_obj(&want_rec, &want);
 	err = reader_seek(r, &oit, &want_rec);
-	if (err != 0)
+	if (err < 0)
 		goto done;
+	if (err > 0) {
+		/* beyond the last indexed object ID. */
+		iterator_set_empty(it);
+		err = 0;
+		goto done;
+	}
 
 	/* read out the reftable_obj_record */
 	reftable_record_from_obj(&got_rec, &got);
@@ -677,6 +710,13 @@ static int reftable_reader_refs_for_indexed(struct reftable_reader *r,
 		/* didn't find it; return empty iterator */
 		iterator_set_empty(it);
 		err = 0;
+		goto done;
+	}
+
+	if (got.offset_len == 0) {
+		/* The writer left out the block positions because they
+		 * did not fit in a block: scan all ref blocks. */
+		err = reftable_reader_refs_for_unindexed(r, it, oid);
 		goto done;
 	}
 
@@ -709,6 +749,12 @@ static int reftable_reader_refs_for_unindexed(struct reftable_reader *r,
 	if (err < 0) {
 		reftable_free(ti);
 		return err;
+	}
+	if (err > 0) {
+		/* no ref section. */
+		reftable_free(ti);
+		iterator_set_empty(it);
+		return 0;
 	}
 
 	filter = reftable_malloc(sizeof(struct filtering_ref_iterator));
